@@ -172,3 +172,47 @@ func H_C04_layouts() {
 		vxrt.Assert(len(t.errors) == 0 && len(t.logs) == 0, "C04:every-entry-replays-after-the-update")
 	}
 }
+
+// H_C04_grow: an update that makes an entry several KB longer, in a file of a dozen 1 KB entries
+// (larger than a reader's look-ahead): the updated entry holds the new value and every other
+// entry replays unchanged in a read-only execution.
+func H_C04_grow() {
+	vxrt.CI(false)
+	vxrt.EnvFixed("NO_COLOR", "1")
+	dir := vxrt.Dir()
+	path := dir + "/f.snap"
+	n := vxrt.Param("entries", 12)
+	body := func(k, size int) string {
+		b := make([]byte, size)
+		for i := range b {
+			b[i] = byte('a' + (k+i)%26)
+			if i%64 == 63 {
+				b[i] = '\n'
+			}
+		}
+		return "entry " + vxItoa(k) + "\n" + string(b) + "\nend " + vxItoa(k)
+	}
+	content := ""
+	for k := 0; k < n; k++ {
+		content += vxFrame("TestG"+vxItoa(k)+" - 1", body(k, 1000))
+	}
+	vxWriteFile(path, content)
+	target := []int{0, 1, n / 2}[vxrt.Choice("updated-entry", 3)]
+	newBody := body(target+100, 1000+vxrt.Param("grow", 6000))
+	upd := WithConfig(Dir(dir), Filename("f"), Update(true))
+	tu := vxNewT("TestG" + vxItoa(target))
+	upd.MatchSnapshot(tu, newBody)
+	tu.end()
+	vxrt.Assert(len(tu.errors) == 0 && len(tu.logs) == 1, "C04:update-reports-updated")
+	ro := WithConfig(Dir(dir), Filename("f"), Update(false))
+	for k := 0; k < n; k++ {
+		t := vxNewT("TestG" + vxItoa(k))
+		if k == target {
+			ro.MatchSnapshot(t, newBody)
+		} else {
+			ro.MatchSnapshot(t, body(k, 1000))
+		}
+		t.end()
+		vxrt.Assert(len(t.errors) == 0 && len(t.logs) == 0, "C04:every-entry-replays-after-the-update")
+	}
+}
